@@ -253,7 +253,7 @@ Proof.
   - intros vm lgkm Hk Hr Hn.
     assert (Hd : forall x, waitcnt_done b vm lgkm = x -> waitcnt_done a vm lgkm = x).
     { unfold waitcnt_done. rewrite Eo1, Eo2; auto. }
-    destruct b as [bg bst bi bns bnv ba bp]; simpl in *. destruct bst.
+    destruct b as [bg bst bi bns bnv ba bp bpc]; simpl in *. destruct bst.
     + apply (W1 vm lgkm); auto; discriminate.
     + apply Hd. apply W2; auto. simpl. congruence.
     + apply (W1 vm lgkm); auto; discriminate.
@@ -306,30 +306,88 @@ Proof.
     rewrite (IHl _ _ _ _ _ _ H). eapply eval_one_len; eauto.
 Qed.
 
+(** an iteration either leaves a wavefront alone or leaves it not Running *)
+Lemma release_nr w : release w = w \/ w_st (release w) <> WRunning.
+Proof. unfold release. destruct (w_st w) eqn:E; auto; right; simpl; discriminate. Qed.
+
+Lemma eval_one_nr fx s newx b j s1 newx1 b1 i w :
+  eval_one fx (s, newx, b) j = (s1, newx1, b1) ->
+  get s i = Some w ->
+  exists w1, get s1 i = Some w1 /\ (w1 = w \/ w_st w1 <> WRunning).
+Proof.
+  unfold eval_one. intros H Hi.
+  destruct (get s j) as [u|] eqn:Hj; [|inversion H; subst; eauto].
+  destruct (fx && st_eqb (w_st u) WReady); [inversion H; subst; eauto|].
+  assert (Hset : forall x, w_st x <> WRunning ->
+            exists w1, get (setw s j x) i = Some w1 /\ (w1 = w \/ w_st w1 <> WRunning)).
+  { intros x Hx. erewrite get_setw by eauto. destruct (Nat.eqb_spec i j); eauto. }
+  assert (Hpass : forall s', (exists w', get s' i = Some w' /\ (w' = w \/ w_st w' <> WRunning)) ->
+            exists w1, get (pass_barrier s' (w_wg u)) i = Some w1 /\ (w1 = w \/ w_st w1 <> WRunning)).
+  { intros s' (w' & E & Hw'). rewrite get_pass_barrier, E; simpl. eexists; split; eauto.
+    destruct (w_wg w' =? w_wg u); auto. destruct (release_nr w') as [->|Hr]; auto. }
+  destruct (w_inst u); try (inversion H; subst; apply Hset; simpl; discriminate).
+  - unfold eval_endpgm in H.
+    destruct ((0 <? out_v u) || (0 <? out_s u))%N; [inversion H; subst; eauto|].
+    destruct (all_others 0 (w_wg u) j is_completed (wfs s)).
+    { destruct b; inversion H; subst; eauto. rewrite get_add_sent. apply Hset; simpl; discriminate. }
+    destruct (all_others 0 (w_wg u) j arrived_or_done (wfs s)).
+    { assert (Hju : get (pass_barrier s (w_wg u)) j = Some (release u)).
+      { rewrite get_pass_barrier, Hj; simpl. rewrite Nat.eqb_refl; auto. }
+      rewrite Hju in H. inversion H; subst. erewrite get_setw by eauto.
+      destruct (Nat.eqb_spec i j); [eexists; split; eauto; right; simpl; discriminate|].
+      apply Hpass; eauto. }
+    destruct (exists_in (w_wg u) is_executing (wfs s)); inversion H; subst; eauto.
+    apply Hset; simpl; discriminate.
+  - unfold eval_barrier in H.
+    assert (Ha : exists w', get (setw s j (set_st u WAtBarrier)) i = Some w' /\ (w' = w \/ w_st w' <> WRunning))
+      by (apply Hset; simpl; discriminate).
+    destruct (all_in (w_wg u) (arrived fx) (wfs (setw s j (set_st u WAtBarrier)))).
+    { inversion H; subst. apply Hpass; auto. }
+    destruct (length (bbuf (setw s j (set_st u WAtBarrier))) <? bcap (setw s j (set_st u WAtBarrier)));
+      inversion H; subst; auto.
+  - destruct (waitcnt_done u vm lgkm); inversion H; subst; eauto. apply Hset; simpl; discriminate.
+Qed.
+
+Lemma fold_nr fx l : forall s newx b s1 newx1 b1 i w,
+  fold_left (eval_one fx) l (s, newx, b) = (s1, newx1, b1) ->
+  get s i = Some w ->
+  exists w1, get s1 i = Some w1 /\ (w1 = w \/ w_st w1 <> WRunning).
+Proof.
+  induction l; simpl; intros s newx b s1 newx1 b1 i w H Hi.
+  - inversion H; subst. eauto.
+  - destruct (eval_one fx (s, newx, b) a) as [[s2 newx2] b2] eqn:E.
+    destruct (eval_one_nr _ _ _ _ _ _ _ _ _ _ E Hi) as (w2 & H2 & Hor2).
+    destruct (IHl _ _ _ _ _ _ _ _ H H2) as (w1 & H1 & Hor1).
+    exists w1. split; auto. destruct Hor1 as [->|?]; auto.
+Qed.
+
 (** ** per-event version *)
 Definition wf_ev_ok (w w1 : wf) : Prop :=
   w_wg w1 = w_wg w /\
   (w_st w1 = WCompleted ->
      (w_st w = WCompleted /\ w_inst w1 = w_inst w /\ w_ns w1 = w_ns w /\ w_nv w1 = w_nv w) \/
      (w_inst w1 = KEnd /\ w_inst w = KEnd /\ out_s w = 0%N /\ out_v w = 0%N /\ out_s w1 = 0%N /\ out_v w1 = 0%N)) /\
-  (forall vm lgkm, w_inst w = KWait vm lgkm -> w_st w = WRunning -> w_st w1 <> WRunning ->
+  (forall vm lgkm, w_inst w = KWait vm lgkm -> w_st w = WRunning -> w_pc w1 <> w_pc w ->
                    waitcnt_done w vm lgkm = true).
 
 Lemma wf_ev_refl w : wf_ev_ok w w.
 Proof. split; auto. split; [intros; left; auto|intros; congruence]. Qed.
 
-Lemma step_ok_ev w w1 : wf_step_ok w w1 -> wf_ev_ok w w1.
+Lemma step_ok_ev w w1 : wf_step_ok w w1 -> (w1 = w \/ w_st w1 <> WRunning) -> wf_ev_ok w w1.
 Proof.
-  intros ((E1 & E2 & E3 & E4 & E5) & C & W). split; auto. split; auto.
+  intros ((E1 & E2 & E3 & E4 & E5) & C & W) Hnr. split; auto. split;
+    [|intros vm lgkm Hk Hr Hpc; apply W; auto; destruct Hnr as [->|?]; auto; congruence].
   intros Hc. destruct (C Hc) as [H|(H1 & H2 & H3)]; [left; auto|right].
   unfold out_s, out_v in *. rewrite E2, E3, E4. repeat split; auto.
 Qed.
 
 Lemma get_eval fx b s i w :
-  get s i = Some w -> exists w1, get (eval fx b s) i = Some w1 /\ wf_step_ok w w1.
+  get s i = Some w -> exists w1, get (eval fx b s) i = Some w1 /\ wf_step_ok w w1 /\ (w1 = w \/ w_st w1 <> WRunning).
 Proof.
   unfold eval. destruct (fold_left (eval_one fx) (internal s) (s, [], b)) as [[s1 nx] b1] eqn:E.
-  intros Hi. destruct (fold_wf _ _ _ _ _ _ _ _ _ _ E Hi) as (w1 & H1 & Hok). eauto.
+  intros Hi. destruct (fold_wf _ _ _ _ _ _ _ _ _ _ E Hi) as (w1 & H1 & Hok).
+  destruct (fold_nr _ _ _ _ _ _ _ _ _ _ E Hi) as (w1' & H1' & Hnr). rewrite H1 in H1'; inversion H1'; subst w1'.
+  eauto.
 Qed.
 
 Lemma eval_len fx b s : length (wfs (eval fx b s)) = length (wfs s).
@@ -344,7 +402,7 @@ Lemma step_wf fx s e i w :
   exists w1, get (step fx s e) i = Some w1 /\ wf_ev_ok w w1.
 Proof.
   intros Hi HP. unfold step. destruct (crashed s); [eauto using wf_ev_refl|].
-  destruct e as [g n|j k|j|j fl|b].
+  destruct e as [g n|j k|j|j fl|b| |]; [| | | | | |eauto using wf_ev_refl].
   - destruct (existsb _ _); [eauto using wf_ev_refl|].
     exists w; split; [|apply wf_ev_refl]. unfold get, set_wfs; simpl.
     rewrite nth_error_app1; auto. apply nth_error_Some. unfold get in Hi; congruence.
@@ -375,7 +433,11 @@ Proof.
       subst i; rewrite Hi in Hj; inversion Hj; subst u; eexists; split; eauto.
       split; simpl; auto. split; [|intros; congruence].
       intros Hcm. destruct (HP Hcm) as [Hz _]. rewrite Hz in Hc. discriminate.
-  - destruct (get_eval fx b s i w Hi) as (w1 & H1 & Hok). eauto using step_ok_ev.
+  - destruct (get_eval fx b s i w Hi) as (w1 & H1 & Hok & Hnr). eauto using step_ok_ev.
+  - (* EFlush *)
+    exists (unwind w). split; [unfold get, flush; simpl; rewrite nth_error_map; unfold get in Hi; rewrite Hi; auto|].
+    unfold unwind. destruct (w_st w) eqn:Es; try apply wf_ev_refl;
+      (split; simpl; auto; split; [discriminate|intros; congruence]).
 Qed.
 
 Lemma step_back fx s e i w1 :
@@ -389,7 +451,7 @@ Proof.
   { intros L. assert (i < length (wfs s)) by (rewrite <- L; apply nth_error_Some; unfold get in H; congruence).
     destruct (get s i) eqn:E; eauto. apply nth_error_None in E. lia. }
   unfold step in *. destruct (crashed s); [left; eauto|].
-  destruct e as [g n|j k|j|j fl|b].
+  destruct e as [g n|j k|j|j fl|b| |]; [| | | | | |left; eauto].
   - destruct (existsb _ _); [left; eauto|]. unfold get in *; simpl in *.
     destruct (nth_error (wfs s) i) eqn:E; [left; eauto|right].
     apply nth_error_None in E. rewrite nth_error_app2 in H by auto.
@@ -400,6 +462,7 @@ Proof.
   - left; apply Hlen. destruct (get s j); auto. destruct fl; [destruct (0 <? w_nv w)%N|destruct (0 <? w_ns w)%N];
       simpl; rewrite ?upd_length; auto.
   - left; apply Hlen. apply eval_len.
+  - left; apply Hlen. simpl. apply map_length.
 Qed.
 
 (** ** end-of-program and wait-count theorems (both variants of the code) *)
@@ -438,7 +501,7 @@ Qed.
 
 Lemma waitcnt_transition fx s e i w w1 vm lgkm :
   done_ok s -> get s i = Some w -> w_inst w = KWait vm lgkm -> w_st w = WRunning ->
-  get (step fx s e) i = Some w1 -> w_st w1 <> WRunning ->
+  get (step fx s e) i = Some w1 -> w_pc w1 <> w_pc w ->
   (out_s w <= lgkm)%N /\ (out_v w <= vm)%N.
 Proof.
   intros Hd Hw Hk Hr H1 Hn.
@@ -1066,7 +1129,7 @@ Qed.
 Lemma core_issue gen s j u k :
   Core gen s -> get s j = Some u -> w_st u = WReady -> k <> KNone ->
   Core gen (setw s j (mkWf (w_wg u) WRunning k (w_ns u) (w_nv u)
-                           (match k with KBar => S (w_arr u) | _ => w_arr u end) (w_pass u))).
+                           (match k with KBar => S (w_arr u) | _ => w_arr u end) (w_pass u) (w_pc u))).
 Proof.
   intros HC Hj Hst Hk. pose proof HC as (_ & HU & _).
   assert (Hl : w_st u <> WCompleted) by congruence.
@@ -1079,9 +1142,9 @@ Proof.
   - unfold waitingb; simpl. destruct k; simpl; lia.
 Qed.
 
-Lemma core_done gen s j u ns nv :
+Lemma core_done gen s j u ns nv pc :
   Core gen s -> get s j = Some u -> w_st u = WRunning -> w_inst u <> KBar ->
-  Core gen (setw s j (mkWf (w_wg u) WReady (w_inst u) ns nv (w_arr u) (w_pass u))).
+  Core gen (setw s j (mkWf (w_wg u) WReady (w_inst u) ns nv (w_arr u) (w_pass u) pc)).
 Proof.
   intros HC Hj Hst Hk. pose proof HC as (_ & HU & _).
   assert (Hl : w_st u <> WCompleted) by congruence.
@@ -1098,7 +1161,7 @@ Lemma inv_step s e : Inv s -> Inv (step true s e).
 Proof.
   intros HI. pose proof HI as (gen & HC & HX). pose proof HC as (Hcr & HU & HN & HS1 & HS2).
   unfold step. rewrite Hcr.
-  destruct e as [g n|j k|j|j fl|b].
+  destruct e as [g n|j k|j|j fl|b| |]; [| | | | | |exact HI].
   - (* EMap *)
     destruct (existsb (fun w => w_wg w =? g) (wfs s)) eqn:Hex; auto.
     assert (Hfresh : forall i w, get s i = Some w -> w_wg w <> g).
@@ -1156,6 +1219,31 @@ Proof.
     destruct fl; [destruct (0 <? w_nv u)%N|destruct (0 <? w_ns u)%N]; auto;
       exists gen; (split; [eapply core_same; eauto|eapply x_ev_same; eauto]).
   - apply inv_eval; auto.
+  - (* EFlush *)
+    assert (Hget : forall i, get (flush s) i = option_map unwind (get s i)).
+    { intros i. unfold get, flush; simpl. apply nth_error_map. }
+    assert (Hst : forall w, w_st (unwind w) = WCompleted <-> w_st w = WCompleted).
+    { intros w. unfold unwind. destruct (w_st w) eqn:E; simpl; rewrite ?E; split; congruence. }
+    assert (Hnr : forall w, w_st (unwind w) = WCompleted \/ w_st (unwind w) = WReady).
+    { intros w. unfold unwind. destruct (w_st w) eqn:E; simpl; auto. }
+    assert (Hwg : forall w, w_wg (unwind w) = w_wg w).
+    { intros w. unfold unwind. destruct (w_st w); auto. }
+    exists gen. split; [split; [auto|split; [|split]]|].
+    + intros i w' H. rewrite Hget in H. destruct (get s i) as [w|] eqn:E; [|discriminate].
+      simpl in H; inversion H; subst w'. pose proof (HU _ _ E) as (U1 & U2 & U3).
+      unfold unwind. destruct (w_st w) eqn:Es; try (unfold U; rewrite Es; auto; fail);
+        (unfold U; simpl; split; [discriminate|]; split; [|discriminate]; intros _;
+         destruct U2 as [P _]; [congruence|]; split; auto;
+         unfold waitingb; simpl; destruct (w_inst w); lia).
+    + intros i w' H Hb. rewrite Hget in H. destruct (get s i) as [w|] eqn:E; [|discriminate].
+      simpl in H; inversion H; subst w'. destruct (Hnr w); congruence.
+    + eapply sinv_keep with (s := s); [reflexivity| |split; [exact HS1|exact HS2]].
+      intros i. rewrite Hget. destruct (get s i) as [w|]; simpl; auto.
+    + simpl. split; [constructor|]. split; [|split].
+      * intros i w' H Hr. rewrite Hget in H. destruct (get s i) as [w|] eqn:E; [|discriminate].
+        simpl in H; inversion H; subst w'. destruct (Hnr w); congruence.
+      * intros i [].
+      * intros i [].
 Qed.
 
 Lemma inv_init : Inv init.
@@ -1656,4 +1744,17 @@ Proof.
   destruct (nth_error progs j) as [p|] eqn:Ep; [|apply nth_error_None in Ep; lia].
   eapply run_wg_ok_log with (w := mkEwf p false false); eauto.
   unfold emu_init. rewrite nth_error_map, Ep. reflexivity.
+Qed.
+
+(** a pipeline flush does not touch the wait counters, does not move any PC and
+    does not end any wavefront; every wavefront that has not ended is Ready *)
+Lemma flush_effect fx s i w :
+  crashed s = false -> get s i = Some w ->
+  exists w1, get (step fx s EFlush) i = Some w1 /\
+    w_wg w1 = w_wg w /\ w_ns w1 = w_ns w /\ w_nv w1 = w_nv w /\ w_pc w1 = w_pc w /\ w_pass w1 = w_pass w /\
+    (w_st w = WCompleted -> w1 = w) /\ (w_st w <> WCompleted -> w_st w1 = WReady).
+Proof.
+  intros Hc Hi. unfold step. rewrite Hc. exists (unwind w). split.
+  - unfold get, flush; simpl. rewrite nth_error_map. unfold get in Hi. rewrite Hi. reflexivity.
+  - unfold unwind. destruct (w_st w) eqn:E; simpl; repeat split; auto; congruence.
 Qed.
